@@ -49,8 +49,6 @@ def build(repo, tier):
     from contracts.pretty import pretty_method_unit, print_stack_unit, STEP_NAME
     us.append(Unit(f'{pid}/py/PrettyPrintingInterpreter.print_stack', print_stack_unit(repo, cs)))
     for m in STEP_NAME:
-        if m in ('metavar', 'instantiate', 'instantiate_pattern'):
-            continue
         for ph in PHASES_OF.get(m, ['Proof']):
             us.append(Unit(f'{pid}/py/PrettyPrintingInterpreter.{m} refines BasicInterpreter.{m}/{ph}', pretty_method_unit(repo, cs, m, ph), info={'split_depth': 1}))
     for r in RULES:
